@@ -780,6 +780,19 @@ def install(ex):
             _undecided("set.add of symbolic value")
         s.add(v)
 
+    @method("set", "update")
+    def set_update(I, s, it):
+        for v in I.iterate_concrete(it):
+            if isinstance(v, Sym):
+                _undecided("set.update with a symbolic value")
+            s.add(v)
+
+    @method("set", "discard")
+    def set_discard(I, s, v):
+        if isinstance(v, Sym):
+            _undecided("set.discard of symbolic value")
+        s.discard(v)
+
     # ------------------------------------------------------------ os.path (POSIX contract)
     M["os.path.sep"] = "/"
     M["os.sep"] = "/"
